@@ -215,6 +215,12 @@ theorem stats_order_independent (l₁ l₂ : List Rat) (h : l₁.Perm l₂) : st
 /-- kernel-evaluated example (numpy's conventions: median of an even count = mean of the two middle values; population variance) -/
 theorem stats_example : stats [3, 1, 4, 2] = ⟨1, 4, 5 / 2, 5 / 2, 5 / 4⟩ := by decide +kernel
 
+/-- the statistics describe the *list* of rows (a multiset, by `stats_order_independent`), not the set of distinct rows: iterations that
+legitimately produced the same figures (all sampled inputs discrete) each count — a summary over the distinct rows is a different summary -/
+theorem repeated_rows_count :
+    (stats [2, 2, 2, 5]).mean = 11 / 4 ∧ (stats ([2, 2, 2, 5] : List Rat).eraseDups).mean = 7 / 2 ∧
+    (stats [2, 2, 2, 5]).median = 2 ∧ (stats ([2, 2, 2, 5] : List Rat).eraseDups).median = 7 / 2 := by decide +kernel
+
 /-! ## the row as text: what the statistics step reads back is what the worker wrote, in header order -/
 
 /-- **header order survives the round trip**: what `main` reads back from a row, cell by cell, is exactly the list of values `work_package`
